@@ -66,5 +66,16 @@ package ignorefiles
 
 //@ func ParseIgnoreFileContent -> (rs, err)
 //@   sweep
+//@   ensures C19,C10.parse.result: err == nil ==> rs != nil
 //@   pure
 //@   opt pure-label=C16.no-shared-state
+
+//@ func LoadPackageIgnoreRules -> (rs, err)
+//@   sweep
+//@   pure
+//@   opt pure-label=C16.no-shared-state
+//@   assume init.default: DefaultRuleset != nil
+//@   ensures C19,C10.load.result: err == nil ==> rs != nil
+
+//@ func init#1
+//@   ensures C19,C10.init.default: DefaultRuleset != nil
